@@ -12,7 +12,7 @@ import (
 func init() {
 	register(&propDef{
 		ID: "C01", Level: "other", Run: withShared(runC01, share{"C02", runC02, ruleIs("layer-arith")}),
-		Explanation: "The bookkeeping identities of the chip accounts are shown inductive over every piece of code that can write a chip account (writers are discovered from the program's write sets, not listed): I1 InitialStackSize + Pot = Bankroll and I2 StackSize + Wager = InitialStackSize hold at the exit of every path of every writer whenever they hold at entry (path-partitioned affine dataflow; loop bodies analysed for a fresh element); on every in-round path the change of Status.CurrentRoundPot equals the change of the payer's Wager; the end-of-round sweep of wagers and the reset of the round pot always happen together with no event emitted in between; settlement's Final and Changed always move by the same amount and start from the player's own Bankroll; the pot builder is fed Pot+Wager, Idx and Fold of every player and its result is what gets published; no caller-supplied amount reaches the chip mover negative (shared with C12). Does NOT decide non-negativity in general, that pots add up to the contributions, zero-sum of the result, or loss bounds: those are arithmetic over loops in pot/ and settlement/.",
+		Explanation: "The bookkeeping identities of the chip accounts are shown inductive over every piece of code that can write a chip account (writers are discovered from the program's write sets, not listed): I1 InitialStackSize + Pot = Bankroll and I2 StackSize + Wager = InitialStackSize hold at the exit of every path of every writer whenever they hold at entry (path-partitioned affine dataflow; loop bodies analysed for a fresh element); on every in-round path the change of Status.CurrentRoundPot equals the change of the payer's Wager; the end-of-round sweep of wagers and the reset of the round pot always happen together with no event emitted in between; settlement's Final and Changed always move by the same amount and start from the player's own Bankroll; the pot builder is fed Pot+Wager, Idx and Fold of every player and its result is what gets published; no caller-supplied amount reaches the chip mover negative (shared with C12). A handler that republishes the pots does so on every non-failing path; the layers the pots are cut from are built in the nested side-pot shape (rule shared with C02); the winner shares of a level add up to its total. Does NOT decide non-negativity in general, that pots add up to the contributions, zero-sum of the result, or loss bounds: those are arithmetic over loops in pot/ and settlement/.",
 		Trusted:     commonTrusted,
 		Assumptions: []string{"distinct *PlayerState objects do not alias (each player has its own state object)", "alias player.state == Player.State()"},
 		NotCovered:  "non-negativity in general; pots sum to contributions (pot.LevelList arithmetic, see C16); zero-sum; nobody loses more than they put in",
@@ -332,6 +332,27 @@ func runC01(c *Ctx) {
 			c.check(len(bad) == 0, "boundary-pairing", fnKey(cl), p.FnPos(cl), "sweep and round-pot reset happen together", "round boundary half done", uniq(bad, 3)...)
 		}
 		c.floor("boundary-pairing", "round-boundary callers", n, 3)
+		// the reset itself is unconditional: a resetter zeroes the round pot on every one of its paths
+		// (a variant-dependent reset leaves last street's chips in the round pot of the next)
+		for _, f := range resetters {
+			s := eg.summ(0)
+			paths, _ := s.Function(f)
+			var bad []string
+			for _, ps := range paths {
+				if ps.End != "return" {
+					continue
+				}
+				st := ps.storesTo("pokerface.Status.CurrentRoundPot")
+				if len(st) == 0 {
+					bad = append(bad, "the round pot survives the reset on path ["+ps.CondString()+"]")
+					continue
+				}
+				if v, ok := st[len(st)-1].Val.isConstInt(); !ok || v != 0 {
+					bad = append(bad, "the round pot is reset to "+st[len(st)-1].Val.String()+" on path ["+ps.CondString()+"]")
+				}
+			}
+			c.check(len(bad) == 0, "boundary-pairing", fnKey(f)+"#reset-unconditional", p.FnPos(f), "the round pot is zeroed on every path of the reset", "the round pot is not always reset at the round boundary", uniq(bad, 2)...)
+		}
 	}
 
 	// ---- result-identity
@@ -489,11 +510,69 @@ func runC01(c *Ctx) {
 				continue
 			}
 			last := st[len(st)-1]
+			whole := false
+			for _, e := range ps.Events {
+				if e.Kind == "call" && strings.HasSuffix(e.Callee, ".GetPots") && e.Res != nil && e.Res.String() == last.Val.String() {
+					whole = true
+				}
+			}
 			if !strings.Contains(last.Val.String(), "GetPots(") {
 				bad = append(bad, "Status.Pots is stored from "+last.Val.String())
+			} else if !whole {
+				bad = append(bad, "what is published is "+last.Val.String()+", not the whole list of pots that was built: chips of a dropped pot are settled to nobody")
 			}
 		}
 		c.check(len(bad) == 0, "pot-feed", fnKey(publisher), p.FnPos(publisher), "every player's Pot+Wager, Idx and Fold are fed and the resulting pots are published", "the pot builder is fed wrongly", uniq(bad, 4)...)
+	}
+
+	// ---- pot-totals-from-levels: a published pot's Total is the Total of the level it is cut from,
+	// or, when adjacent levels are merged, the sum of the two pots' Totals. Nothing else may produce
+	// it (in particular not the eligibility map, which lists folded players with other amounts)
+	{
+		var bad []string
+		nFresh, nMerge := 0, 0
+		for _, w := range ix.Writers("pot.Pot.Total") {
+			c.touch(fnKey(w))
+			s := newSumm(p, 0)
+			fp, _ := s.Function(w)
+			sets := [][]*PathSum{fp}
+			for _, l := range s.loops(w) {
+				bp, _ := s.LoopBody(w, l)
+				sets = append(sets, bp)
+				// nested loops
+			}
+			seen := map[string]bool{}
+			for _, set := range sets {
+				for _, ps := range set {
+					for _, e := range ps.Events {
+						if e.Kind != "store" || e.FKey != "pot.Pot.Total" {
+							continue
+						}
+						k := e.Pos + e.Val.String()
+						if seen[k] {
+							continue
+						}
+						seen[k] = true
+						a := e.Val.asAff()
+						okT := a.C == 0 && len(a.T) >= 1 && len(a.T) <= 2
+						for t, co := range a.T {
+							if co != 1 || !strings.HasSuffix(t, ".Total") {
+								okT = false
+							}
+						}
+						switch {
+						case !okT:
+							bad = append(bad, "a pot's Total is stored as "+e.Val.String()+" ("+e.Pos+")")
+						case len(a.T) == 1:
+							nFresh++
+						default:
+							nMerge++
+						}
+					}
+				}
+			}
+		}
+		c.check(len(bad) == 0 && nFresh >= 1 && nMerge >= 1, "pot-totals-from-levels", "pot.Pot.Total", "-", fmt.Sprintf("%d store(s) copy a level's Total, %d merge two Totals", nFresh, nMerge), "a published pot total is not derived from the level totals", uniq(bad, 3)...)
 	}
 
 	// ---- pots-refreshed: a handler that republishes the pots does so on every path that does not
